@@ -62,6 +62,12 @@ def check_nearfield_power_scaling(ctx, ck, rule='R-SIB.field-scaling'):
             if ok:
                 # numerator: pwr (defaulting to self.power)
                 r = fl.roots(p.num[0][1], fl.node_id_of(apps['self.e_field'][0]))
+                # an attribute of self that this function assigns stands for what it was assigned
+                from ..rules import assigns_to_attr
+                for x_ in list(r):
+                    if x_[0] == 'attr' and x_[1].startswith('self.') and x_[1].count('.') == 1 and x_[1] != 'self.power':
+                        for a_ in assigns_to_attr(f, x_[1]):
+                            r |= fl.roots(a_.value, fl.node_id_of(a_))
                 ok = ('param', 'pwr') in r and ('attr', 'self.power') in r
                 why += ' ; numerator roots %s' % sorted(x for x in r if x[0] in ('param', 'attr'))
         ck.ob(rule, NF + '|f_e=sqrt(pwr/power)', ok, f.loc(apps['self.e_field'][0]), why)
